@@ -169,6 +169,11 @@ func genMux() (string, error) {
 		return "", fmt.Errorf("p2p/conn.go: receiveLengthPrefixed not found")
 	}
 	fmt.Fprintf(&b, "def src_receiveLengthPrefixed : String := %q\n", g.StmtsText(rl.Body.List))
+	wf := cf.FindFunc("MultiConn", "waitForAndHandleWireBytes")
+	if wf == nil {
+		return "", fmt.Errorf("p2p/conn.go: waitForAndHandleWireBytes not found")
+	}
+	fmt.Fprintf(&b, "def src_waitForAndHandleWireBytes : String := %q\n", g.StmtsText(wf.Body.List))
 	p2f, err := g.ParseFile(filepath.Join(*repo, "p2p/p2p.go"))
 	if err != nil {
 		return "", err
